@@ -1891,8 +1891,34 @@ func genDrawSuspendResume(g *h.Gen) {
 	_ = r
 }
 
+// genDrawUnencodable: 8-bit locales — cells whose rune the charset cannot encode (shown as '?', as an ACS glyph or through a
+// fallback string) are painted once: the idle Shows after it and an identical re-store write nothing (C13), and the display keeps
+// showing the substitute (judged by the oracle only, like every 8-bit case)
+func genDrawUnencodable(g *h.Gen) {
+	d := "0,0,0,0,0,-,-"
+	bold := StyleF{Attrs: 1}.String()
+	n := 0
+	for _, cs := range []string{"US-ASCII", "ISO8859-1", "KOI8-R"} {
+		for _, name := range []string{"xterm-256color", "linux", "vt100", "sun-color"} {
+			if terminfo.VerifEntries()[name] == nil {
+				continue
+			}
+			n++
+			rs := []int{0x2603, 0x2500, 0x4e16, 0xe9, 0x20ac, 0x2192}
+			var ops []string
+			for i, m := range rs {
+				ops = append(ops, drawStoreOp(0, i, 0, m, nil, []string{d, bold}[i%2]))
+			}
+			ops = append(ops, "W", "W")
+			ops = append(ops, drawStoreOp(n, 0, 0, rs[0], nil, d), drawStoreOp(n+1, 2, 0, rs[2], nil, d), "W", "W", drawStoreOp(0, 1, 1, 'x', nil, d), "W")
+			g.Emit("draw %s 0 8 2 %s", withVariant(name+"@"+cs), strings.Join(ops, "; "))
+		}
+	}
+}
+
 func genDraw(g *h.Gen) {
 	genDrawMatrix(g)
+	genDrawUnencodable(g)
 	genDrawSuspendResume(g)
 	genDrawCornerCover(g)
 	genDrawRestoreIdentical(g)
